@@ -342,7 +342,7 @@ def query(v, op, res):
     if q == 'base_str':
         return v.base_str
     if q == 'encode':
-        return v.encode()
+        return v.encode(*op.get('args', ()))
     if q == 'repr':
         return repr(v) if not isinstance(v, AnsiStr) else str.__repr__(v)
     if q in ('count', 'find', 'rfind', 'index', 'rindex', 'endswith'):
